@@ -86,6 +86,7 @@ func TestC21(t *testing.T) {
 		name string
 		t    Target
 		algs map[uint16]bool
+		ech  bool // the connection uses (accepted) ECH: the hello that counts is the inner one
 	}
 	var clients []client
 	for _, tg := range ParrotTargets(false) {
@@ -100,7 +101,7 @@ func TestC21(t *testing.T) {
 		for _, a := range ch.CertCompAlgs {
 			m[a] = true
 		}
-		clients = append(clients, client{tg.Name, tg, m})
+		clients = append(clients, client{tg.Name, tg, m, false})
 	}
 	subsets := [][]tls.CertCompressionAlgo{{tls.CertCompressionBrotli}, {tls.CertCompressionZlib}, {tls.CertCompressionZstd}, {tls.CertCompressionZlib, tls.CertCompressionBrotli, tls.CertCompressionZstd}, {tls.CertCompressionZstd, tls.CertCompressionZlib}}
 	for _, ss := range subsets {
@@ -110,7 +111,7 @@ func TestC21(t *testing.T) {
 			m[uint16(a)] = true
 			name += fmt.Sprintf("-%d", a)
 		}
-		clients = append(clients, client{name, Target{Name: name, Spec: customCompressSpec(ss)}, m})
+		clients = append(clients, client{name, Target{Name: name, Spec: customCompressSpec(ss)}, m, false})
 	}
 	// callers that change what they advertise after the hello was first built (documented
 	// edits of uconn.Extensions): what counts is the extension on the wire
@@ -125,7 +126,7 @@ func TestC21(t *testing.T) {
 			}
 			u.Extensions = kept
 			return nil
-		}}, map[uint16]bool{}})
+		}}, map[uint16]bool{}, false})
 		clients = append(clients, client{p.Name + "+list-narrowed-after-build", Target{Name: p.Name + "+list-narrowed-after-build", ID: p.ID, Edit: func(u *tls.UConn) error {
 			for _, e := range u.Extensions {
 				if cc, ok := e.(*tls.UtlsCompressCertExtension); ok {
@@ -133,7 +134,14 @@ func TestC21(t *testing.T) {
 				}
 			}
 			return nil
-		}}, map[uint16]bool{uint16(tls.CertCompressionZstd): true}})
+		}}, map[uint16]bool{uint16(tls.CertCompressionZstd): true}, false})
+	}
+	// accepted ECH: the hello the server answers is the inner one, which uTLS builds as a
+	// plain crypto/tls hello without compress_certificate - whatever the outer hello lists
+	for _, pn := range []string{"Chrome_120", "Firefox_120", "Chrome_131"} {
+		if p := ParrotByName(pn); p.Name != "" {
+			clients = append(clients, client{name: p.Name + "+ech-accepted", t: Target{Name: p.Name + "+ech-accepted", ID: p.ID}, algs: map[uint16]bool{}, ech: true})
+		}
 	}
 	r.Count("clients", int64(len(clients)))
 	settings := []struct {
@@ -166,7 +174,7 @@ func TestC21(t *testing.T) {
 						if !cl.algs[alg] && co != "unadvertised" || cl.algs[alg] && co == "unadvertised" {
 							continue
 						}
-						if !mon.Thorough() && k%7 != 0 && co != "none" {
+						if !mon.Thorough() && k%7 != 0 && co != "none" && !(cl.ech && si == 0) {
 							continue
 						}
 						if !mon.Thorough() && co == "none" && k%3 != 0 {
@@ -239,7 +247,24 @@ func TestC21(t *testing.T) {
 			extra = func(c *tls.Config) { c.Certificates = []tls.Certificate{peer.Fix().ECDSA} }
 			r.Count("with_certificate_request", 1)
 		}
+		if j.cl.ech {
+			scfg.EncryptedClientHelloKeys = peer.ECHServerKeys(true, gridECHKey())
+			prev := extra
+			extra = func(c *tls.Config) {
+				if prev != nil {
+					prev(c)
+				}
+				c.EncryptedClientHelloConfigList = peer.ECHConfigList(gridECHKey())
+			}
+		}
 		h := RunCase(j.cl.t, GridCase{Server: scfg, Plan: plan}, "example.test", extra, peer.Opts{})
+		if j.cl.ech {
+			if !h.SState.ECHAccepted && h.ServerErr == nil {
+				r.Inconclusive(j.cl.name + ": the server did not accept the ECH offer")
+				return
+			}
+			r.Count("ech_accepted_cases", 1)
+		}
 		sig := map[string]string{"client": j.cl.name, "alg": fmt.Sprint(j.alg), "setting": settings[j.set].name, "corrupt": j.corrupt}
 		rep := map[string]any{"case": i, "client": j.cl.name, "chain": j.ch.name, "alg": j.alg, "setting": settings[j.set].name, "corrupt": j.corrupt, "cert_msg_len": len(sentBody), "compressed_msg_len": sentMsgLen, "err": h.ErrString()}
 		if h.ClientPanic != "" {
